@@ -440,6 +440,12 @@ pub fn run(rep: &mut Report, rng: &mut Rng) {
                 hex(content_of(m).as_bytes()),
                 bins.iter().map(|b| if b.fails { "-".to_string() } else { hex(&export_bytes(b, ids)) }).collect::<Vec<_>>().join(",")));
         }
+        if items_req.is_empty() {
+            // every work item of the run has an unlistable profile name (the recorded finding):
+            // nothing is left to ask the model about
+            rep.count("llvmrun.no_listable_item");
+            continue;
+        }
         reqs.push(format!("c20.llvm.run 1 {} {}", bins.iter().map(|b| hex(b.name.as_bytes())).collect::<Vec<_>>().join(","), items_req.join(";")));
         let mut stdins: Vec<String> = merges_sorted.iter().filter(|m| m.rc == "0").map(|m| hex(&m.stdin)).collect();
         stdins.sort();
